@@ -1240,7 +1240,7 @@ reg("C10", ["Props.C10_flag_reads_full_reference", "Props.C10_execution_inactive
 import slice_h as H  # noqa: E402
 
 KINDS_H = {
-    "C03": ["call", "call", "exec", "exec", "setup", "setupsel", "fork", "xmk", "xrun", "cache"],
+    "C03": ["call", "call", "exec", "exec", "setup", "setupsel", "fork", "xmk", "xrun", "cache", "rerun"],
     "C11": ["call", "call", "exec", "setup", "setupsel", "fork", "xmk", "xrun", "xrun", "xsetup", "cache"],
     "C15": ["call", "call", "call", "exec", "rerun", "rerun", "config", "compose", "setup", "xmk", "xrun", "xrun", "setupfail"],
     "C18": ["cache", "cache", "call", "setup", "xmk", "xrun"],
@@ -1407,6 +1407,9 @@ def run_H(pid, tier, seed):
                     kind, sig = "counterexample", "setup-node-ran-again"
                 elif pid == "C03":
                     kind, sig = "counterexample", "entered-set-differs-from-selected-active-nodes"
+                elif pid == "C18" and op["op"] == "xrun" and extra:
+                    # a restart object ran nodes the model holds precomputed (in its file, or set up on the instance)
+                    kind, sig = "counterexample", "restart-object-recomputed-what-its-file-holds"
                 elif pid == "C15":
                     # which nodes an operation runs is a function of its selection, its arguments and the setup results
                     # the instance holds (the model); anything else is state leaked from the history
